@@ -558,6 +558,11 @@ StmtScenarios == (
   @@ "with"            :> <<"with", "(", A, ")", ";", "with", "(", "b", ")", "c", ";">>
   @@ "debugger"        :> <<"debugger", ";", A, ";">>
   @@ "empty-stmts"     :> <<";", ";", A, ";", ";">>
+  \* (runs of empty statements: every one is a node of its own, at the top, in a function body, in a case clause, after a
+  \* statement whose body is the empty statement, after a block)
+  @@ "empty-runs"      :> <<";", ";", ";", A, ";", ";", ";", ";", "function", "f", "(", ")", "{", ";", ";", ";", "}", "{", "}", ";", ";", ";">>
+  @@ "empty-bodies"    :> <<"if", "(", A, ")", ";", ";", ";", "while", "(", "b", ")", ";", ";", ";", "l", ":", ";", ";", ";", "with", "(", "c", ")", ";", ";", ";",
+                            "if", "(", "d", ")", ";", "else", ";", ";", ";", "switch", "(", "x", ")", "{", "case", "1", ":", ";", ";", ";", "}">>
   @@ "block-nested"    :> <<"{", "{", A, ";", "}", "{", "}", "}">>
 )
 StmtNames == DOMAIN StmtScenarios
